@@ -1,0 +1,26 @@
+//go:build verif
+
+package cmdconfig
+
+// Contracts for the goverif VC generator (/verif). Comment-only file: it adds no code.
+
+// ---- C25: the `config` builtin works on the table of the scope it runs in --------------------------------
+//@ func getConfig [C25]
+//@   check none
+//@   requires p != nil
+//@   at call (*Config).Get#1 assert arg0 == p.Config
+
+//@ func setConfig [C25]
+//@   check none
+//@   requires p != nil
+//@   at call (*Config).Set#1 assert arg0 == p.Config && arg4 == p.FileRef
+
+//@ func defaultConfig [C25]
+//@   check none
+//@   requires p != nil
+//@   at call (*Config).Default#1 assert arg0 == p.Config
+
+//@ func bangConfig [C25]
+//@   check none
+//@   requires p != nil
+//@   at call (*Config).Default#1 assert arg0 == p.Config
